@@ -61,9 +61,24 @@ type outcome struct {
 	CpuMs     float64 `json:"cpu_ms,omitempty"` // user+system time of the child process (load-independent)
 }
 
-// time bound: linear in the input size with a generous constant (the machine may be heavily loaded)
+// time bound: a polynomial in the input size with generous constants (lead's ruling on D-09e: validation is
+// quadratic in nesting depth and in the number of conflicting pairs, the printer worse; polynomial is acceptable),
+// capped so that a genuine hang is reported after two minutes at the latest:
+//
+//	15 s + 0.4 ms/byte + 150 µs x depth² + 2 µs x bytes²,  at most 120 s
+//
+// measured in wall-clock time for jobs run in this process and in CPU time for jobs run in a child process.
 func timeLimit(j job) time.Duration {
-	return 15*time.Second + time.Duration(len(j.Src)+len(j.Vars))*400*time.Microsecond
+	n := time.Duration(len(j.Src) + len(j.Vars))
+	d := time.Duration(braceDepth(j.Src))
+	if dv := time.Duration(braceDepth(j.Vars)); dv > d {
+		d = dv
+	}
+	l := 15*time.Second + n*400*time.Microsecond + d*d*150*time.Microsecond + n*n*2*time.Microsecond
+	if l > 120*time.Second || l < 0 {
+		l = 120 * time.Second
+	}
+	return l
 }
 
 func decodeVars(s string) map[string]interface{} {
@@ -107,7 +122,7 @@ func shape(res *graphql.Result, mustNoData bool) (class, violation string) {
 	return "no-data+errors", ""
 }
 
-func drain(ch chan *graphql.Result, cancel context.CancelFunc, mustNoData bool) (class, violation string) {
+func drain(ch chan *graphql.Result, cancel context.CancelFunc, mustNoData bool, wait time.Duration) (class, violation string) {
 	if ch == nil {
 		return "nil-channel", "the entry point returned a nil channel"
 	}
@@ -127,9 +142,9 @@ func drain(ch chan *graphql.Result, cancel context.CancelFunc, mustNoData bool) 
 				return c, v
 			}
 			class = "sub:" + c
-		case <-time.After(10 * time.Second):
+		case <-time.After(wait):
 			cancel()
-			return "sub-silent", "the subscription channel neither delivered nor closed within 10 s"
+			return "sub-silent", fmt.Sprintf("the subscription channel neither delivered nor closed within %v", wait)
 		}
 	}
 	cancel()
@@ -213,7 +228,7 @@ func execJob(j job) (o outcome) {
 			p.Schema = graphql.Schema{}
 			mustNoData = false
 		}
-		o.Class, o.Violation = drain(graphql.Subscribe(p), cancel, mustNoData)
+		o.Class, o.Violation = drain(graphql.Subscribe(p), cancel, mustNoData, 2*timeLimit(j))
 	case "Validate":
 		s2, d2 := sch, doc
 		if j.Variant == "nilschema" {
@@ -264,7 +279,7 @@ func execJob(j job) (o outcome) {
 	case "ExecuteSubscription":
 		ctx, cancel := context.WithCancel(context.Background())
 		params.Context = ctx
-		o.Class, o.Violation = drain(graphql.ExecuteSubscription(params), cancel, false)
+		o.Class, o.Violation = drain(graphql.ExecuteSubscription(params), cancel, false, 2*timeLimit(j))
 	case "CacheGet", "CacheGetNorm":
 		var pc *graphql.PlanCache
 		if j.Variant != "nilcache" {
@@ -704,12 +719,18 @@ func main() {
 			if n.big && (si > 1 || (si > 0 && !run.Thorough())) {
 				continue
 			}
+			if !run.Thorough() && si == 3 {
+				continue
+			}
 			for _, e := range append([]string{"Parse"}, entries...) {
 				if p.stop() {
 					break
 				}
 				if n.hang && !(si == 0 && (e == "Execute" || e == "PlanQuery")) {
-					continue // each such job costs the whole watchdog interval
+					continue // each such job costs the whole watchdog interval when it fails
+				}
+				if n.only != nil && !contains(n.only, e) {
+					continue
 				}
 				p.submit(job{Entry: e, Schema: si, Src: n.src, Op: n.op, Vars: n.vars, Origin: "nasty:" + n.name})
 			}
@@ -781,6 +802,15 @@ func main() {
 	run.Res.Extra["seed_corpus"] = len(seeds)
 	run.Res.Extra["slowest_jobs"] = p.slow
 	run.Finish()
+}
+
+func contains(xs []string, x string) bool {
+	for _, y := range xs {
+		if y == x {
+			return true
+		}
+	}
+	return false
 }
 
 func safeParse(src string) (doc *ast.Document, err error) {
